@@ -132,44 +132,11 @@ def run(chk):
                     'the example player picks uniformly from current_available_cards(hand) of the hand it was given',
                     f'RandomPlay.play returns `{ast.unparse(v)}`: not a choice from the playable set of its own hand')
     chk.floor('C06.R3', 'returns of RandomPlay.play', n_ret, 1)
-    # the client hands the player the sets the observer mutates
-    cm = repo.cls('Client', 'C06.R3').module
-    _, cpp = repo.method('Client', 'playing_phase', 'C06.R3')
-    w4, q4 = repo.where(cm, cpp), 'Client.playing_phase'
-    ctor = [n for n in ast.walk(cpp) if isinstance(n, ast.Call) and ast.unparse(n.func) == 'ObservedPlayingPhase']
-    if len(ctor) != 1:
-        raise AnalysisError('C06.R3', q4, 'observer construction not found')
-    kw = {k.arg: ast.unparse(k.value) for k in ctor[0].keywords}
-    own_hand = kw.get('hand') or (ast.unparse(ctor[0].args[2]) if len(ctor[0].args) > 2 else None)
-    envname = None
-    par = parent(ctor[0])
-    if isinstance(par, ast.Assign) and isinstance(par.targets[0], ast.Name):
-        envname = par.targets[0].id
-    plays = [n for n in ast.walk(cpp) if isinstance(n, ast.Call) and isinstance(n.func, ast.Attribute) and n.func.attr == 'play'
-             and 'playing_system' in ast.unparse(n.func.value)]
-    chk.floor('C06.R3', 'calls of the playing system in the client', len(plays), 2)
-    for pc in plays:
-        # the statement after `card = ....play(X, env)` applies the card for seat P
-        st = parent(pc)
-        blk = parent(st)
-        body = None
-        for fld in ('body', 'orelse'):
-            if st in getattr(blk, fld, []):
-                body = getattr(blk, fld)
-        nxt = body[body.index(st) + 1] if body and body.index(st) + 1 < len(body) else None
-        seat = None
-        if nxt is not None:
-            for n in ast.walk(nxt):
-                if isinstance(n, ast.Call) and isinstance(n.func, ast.Attribute) and n.func.attr == 'play_card_by_player' and len(n.args) == 2:
-                    seat = ast.unparse(n.args[1])
-        handarg = ast.unparse(pc.args[0]) if pc.args else None
-        envarg = ast.unparse(pc.args[1]) if len(pc.args) > 1 else None
-        if seat == 'self.player':
-            want = own_hand
-        elif seat == 'dummy':
-            want = f'{envname}.dummy_hand'
-        else:
-            raise AnalysisError('C06.R3', q4, f'cannot tell for which seat `{ast.unparse(pc)}` chooses a card')
-        chk.require(handarg == want and envarg == envname, 'C06.R3', repo.where(cm, pc), q4, ast.unparse(pc),
-                    f'the card for {seat} is chosen from {want}, the set the observer keeps up to date',
-                    f'card for {seat} is chosen from `{handarg}` with engine `{envarg}`; the observer maintains `{want}`')
+    # the client hands the player the sets the observer mutates: decided on the communication skeleton (sa.skeleton) for every
+    # declarer x seat - the policy stub checks owner and board of the hand it is given against the seat on turn
+    from . import session as S
+    fam = [(dict(boards=[S.board(d, c, 0, wi, 'NONE')]), 'rr') for (d, c, wi) in (('N', 'N', 1), ('N', 'E', 4), ('E', 'S', 2), ('S', 'W', 0), ('W', 'E', 3), ('E', 'N', 4))]
+    fam.append((dict(boards=[S.board('N', 'S', 1, 1, 'NS'), S.board('E', None), S.board('S', 'E', 0, 4, 'EW')]), 'rand:1'))
+    res = S.run_family(chk, ['policy'], fam)
+    S.record(chk, res)
+    chk.floor('C06.R3', 'abstract sessions (client policy arguments)', len(res), 6)
